@@ -28,8 +28,8 @@ INVARIANT Emit
 CHECK_DEADLOCK FALSE
 """
 # the values put: the zero value of the value type is among them (a live key whose value is the zero value is still live: it is
-# listed in the printed form, and a later Put of another value overwrites it) - with one other value in the quick tier, two in the thorough one
-VALS = {"quick": "0, 1", "thorough": "0, 1, 2"}
+# listed in the printed form, and a later Put of another value overwrites it) - with one other value (the thorough tier already takes half an hour with two values; a third would multiply its states by 2.5)
+VALS = {"quick": "0, 1", "thorough": "0, 1"}
 TRACE_CFG = """INIT Init
 NEXT Next
 INVARIANT Judge
@@ -203,7 +203,7 @@ def do_replay(run, binp, path):
         c = pl["gen"]
         f = pl["finding"]
         # a one-case replay: the history, with the failing transition as its only successor
-        r = run_tlc("SkipListGen", GEN_CFG % dict(c, vals=VALS["thorough"]), workers=1, timeout=900)       # (a superset of either tier's values)
+        r = run_tlc("SkipListGen", GEN_CFG % dict(c, vals="0, 1, 2"), workers=1, timeout=900)       # (a superset of the values of either tier)
         cases = [cs for cs in r.json_prints("case") if cs["hist"] == f["hist"]]
         inp, outp = os.path.join(d, "c.jsonl"), os.path.join(d, "r.jsonl")
         with open(inp, "w") as fh:
